@@ -125,6 +125,17 @@ Definition runCal (l : list Z) : list Z :=
           | Ok ct => op1 ct (match r with 41 :: _ => 11 | _ => 12 end) [d; n; st]
           | Err => [1] | Panic => [2]
           end
+      (* 40 = 10 (roll) from a datetime with a time of day; 44 = the four predicates at the datetime (d, t) *)
+      | 40 :: [d; m; st; t] =>
+          match fst (read_any_at t l) with
+          | Ok ct => op1 ct 10 [d; m; st]
+          | Err => [1] | Panic => [2]
+          end
+      | 44 :: [d; t] =>
+          match fst (read_any_at t l) with
+          | Ok ct => [zb (a_bus ct d); zb (a_settle ct d); zb (a_wd ct d); zb (a_hol ct d)]
+          | Err => [1] | Panic => [2]
+          end
       | 43 :: [d; n; m; st; t] =>
           match fst (read_any_at t l) with
           | Ok ct => op1 ct 13 [d; n; m; st]
